@@ -277,6 +277,21 @@ def run(tier, rep):
     args = [{"shard": i, "tier": tier, "requests": 700 if tier == "quick" else 9000} for i in range(shards)]
     for res in sandbox.run_many("vf.props.c04", "proxied_worker", args, workers=shards, timeout=1500):
         rep.merge_worker(res)
+    if tier == "thorough":
+        from .. import miri
+        mr = common.rng("c04-miri")
+        corpus = []
+        for i in range(120):
+            q, _ = gen_query(mr)
+            target = mr.choice(PATHS) + ("?" + q if q is not None else "")
+            hs, _ = gen_headers(mr)
+            hs = [(k, v) for k, v in hs if k.lower() not in ("x-rep",)]
+            body = gen_http.body(mr, 300)
+            method = mr.choice(["GET", "POST", "PUT"])
+            recv = [(k.encode(), v.strip().encode()) for k, v in hs]
+            accepted = [x.hex() for _, x in sig.strings_to_sign(method.encode(), target.encode(), recv, body)]
+            corpus.append({"method": method, "uri": target, "headers": [[k, v.strip().encode().hex()] for k, v in hs], "body": body.hex(), "accepted": accepted})
+        miri.run({"sig": corpus}, [], rep)
     rep.merge_worker(sandbox.run("vf.props.c04", "attest_worker", {"tier": tier, "rounds": 40 if tier == "quick" else 400}, timeout=600))
     rep.assumptions += ["order of query pairs in the canonical string: (key,value) order and key+value-concatenation order both accepted; exact duplicate pairs once or as received",
                         "repeated header names: any of last/first/joined/each accepted (counted as ambiguous)",
